@@ -25,6 +25,24 @@ ENGINES = {
  'grofile': ('harness/drivers/grofile.py', 'GroFormat.tla + GroFile.tla + MC_GroFile.tla + Trace_GroFile.tla: exhaustive TLC, history replay with crash injection, batched trace validation'),
 }
 
+
+XG_NOTE = 'Trusts: TLC integer arithmetic; harness conversion lattice->nm (0.125 nm, exact) and the stated tolerances; generic random inputs keep sin(theta) >= 1e-3 at every anchor or are collinear as a user would write them (the band in between is not generated). Expected values never come from gaddlemaps code.'
+CHECKS.update({
+ 'C01': ('xmap-geom',
+         'XMapGeom.tla: exact integer lattice model of anchors / nearest-anchor tie sets / frames; TLC proves FrameLemma (restore o project = law, generic and every collinear completion) for every enumerated case and emits the expected law points, which are replayed on the real ExchangeMap; random float references validated by TLC against Trace_XMapGeom.tla',
+         'Exhaustive within bounds: every placement of a 3-atom reference around the cube centre (all directions, all exactly collinear lines) x 4 bond graphs (thorough: atom 1 anywhere, 4-atom graphs) x 27 target atoms x scales; TLC computes a + s(p-a) and the nearest-anchor tie sets exactly, the real map must agree to 1e-9 nm and report a nearest atom with two bonds. Random trees/cyclic graphs of 3-40 atoms (generic, decimal-collinear, axis-aligned), 1-60 targets, s in (0,2] are recorded as traces (distance ranks, law booleans) and accepted only if the spec logic admits them.',
+         XG_NOTE, 'DESIGN 3 C01'),
+ 'C02': ('xmap-geom',
+         'XMapGeom.tla RigidLemma (nearest sets invariant, rotated law point for generic anchors, axis invariants for collinear anchors / 2-atom / 1-atom references) model-checked over the 24 lattice rotations x translations; expected images replayed on the real ExchangeMap with lattice and random SO(3) motions; random references validated with Trace_XMapGeom.tla',
+         'TLC proves the rigid-motion lemma for every case of the bounds and every lattice motion; on the real code every degenerate case and a seeded sample (thorough: all) of generic ones is mapped after lattice rotations/translations and random SO(3) rotations with translations up to 50 nm: generic anchors must give g(map(ref)) to 1e-8 nm, collinear anchors and two-atom references must keep distance, axial coordinate and radial distance, one-atom references the distance.',
+         XG_NOTE, 'DESIGN 3 C02'),
+ 'C03': ('xmap-geom',
+         'XMapGeom.tla: frame triples (deps) and exact squared distances from TLC; FrameLemma (orthogonal frames => distances scale with s) model-checked; replay on the real ExchangeMap under Gaussian and lattice deformations with one-atom-at-a-time displacement; random references validated with Trace_XMapGeom.tla (clause local uses deps computed by the spec from the logged bond graph)',
+         'For every enumerated case and scale the real map is applied to deformed conformations: each mapped atom must be at s x its construction distance from its anchor (1e-9), atoms of one anchor keep mutual distances x s, and displacing any reference atom outside deps[t] = (anchor, two lowest-numbered bonded atoms) leaves atom t unchanged to 1e-12 nm; displacements inside deps are counted to show non-vacuity.',
+         XG_NOTE, 'DESIGN 3 C03'),
+})
+ENGINES['xmap-geom'] = ('harness/drivers/xmapgeom.py', 'XMapGeom.tla + MC_XMapGeom.tla + Trace_XMapGeom.tla: exhaustive lattice cases with exact expected values replayed on ExchangeMap; random float references as traces')
+
 PENDING_REASON = 'check not built yet in this round (build in progress; see DESIGN.md Appendix B)'
 
 
